@@ -37,6 +37,7 @@ class SimQueue:
         self._last_avail = 0.0
         self.put_log = []      # (time, obj) every put, for oracles
         self.on_put: Optional[Callable] = None
+        self.on_get: Optional[Callable] = None
         self.puts = 0
         self.gets = 0
 
@@ -58,7 +59,10 @@ class SimQueue:
         if self._items and self._items[0][0] <= now + 1e-12:
             _, data = self._items.popleft()
             self.gets += 1
-            return pickle.loads(data)
+            obj = pickle.loads(data)
+            if self.on_get is not None:
+                self.on_get(now, obj)
+            return obj
         raise queue.Empty()
 
     def get_nowait(self):
